@@ -38,8 +38,9 @@ RingId(tok) == IF IsDigit(tok) THEN DigitVal(tok) ELSE CHOOSE n \in 10..99 : Per
 IsToken(tok) == tok \in Organic \/ tok \in BondSyms \/ tok \in {".", "(", ")"} \/ IsRing(tok)
 
 S0 == [atoms |-> <<>>, bonds |-> <<>>, prev |-> 0, stack |-> <<>>, rings |-> <<>>, pend |-> "", last |-> "start", reg |-> 0,
-       ndots |-> 0, nclosed |-> 0, ok |-> TRUE]
-Refuse(s) == [s EXCEPT !.ok = FALSE]
+       ndots |-> 0, nclosed |-> 0, ok |-> TRUE, why |-> ""]
+(* why: "syntax" - no SMILES grammar reads the string; "outside" - legitimate or tolerated elsewhere, not read by this module *)
+Refuse(s, why) == [s EXCEPT !.ok = FALSE, !.why = why]
 Bonded(s, a, b) == \E k \in DOMAIN s.bonds : {s.bonds[k][1], s.bonds[k][2]} = {a, b}
 RingOpen(s, id) == \E k \in DOMAIN s.rings : s.rings[k][1] = id
 RingAtom(s, id) == s.rings[CHOOSE k \in DOMAIN s.rings : s.rings[k][1] = id][2]
@@ -51,22 +52,24 @@ ReadAtom(s, sym) ==
             !.bonds = IF s.prev # 0 THEN Append(@, <<s.prev, n, IF s.pend = "" THEN "-" ELSE s.pend>>) ELSE @,
             !.prev = n, !.pend = "", !.last = "atom"]
 ReadBond(s, sym) ==
-  IF s.prev = 0 \/ s.pend # "" \/ s.last \in {"start", "dot", "bond"} THEN Refuse(s)
+  IF s.prev = 0 \/ s.pend # "" \/ s.last \in {"start", "dot", "bond"} THEN Refuse(s, "syntax")
   ELSE [s EXCEPT !.pend = sym, !.last = "bond"]
 ReadDot(s) ==
-  IF s.last \in {"start", "dot", "bond"} THEN Refuse(s)
+  IF s.last \in {"start", "dot", "bond"} THEN Refuse(s, "syntax")
   ELSE [s EXCEPT !.prev = 0, !.last = "dot", !.ndots = @ + 1]
 ReadOpen(s) ==
-  IF s.prev = 0 \/ s.last \notin {"atom", "ring", "close"} THEN Refuse(s)
+  IF s.prev = 0 \/ s.last \notin {"atom", "ring", "close"} THEN Refuse(s, "syntax")
   ELSE [s EXCEPT !.stack = Append(@, s.prev), !.reg = IF AsBuilt THEN s.prev ELSE 0, !.last = "open"]
 ReadClose(s) ==
-  IF s.stack = <<>> \/ s.last \notin {"atom", "ring", "close"} THEN Refuse(s)
+  IF s.stack = <<>> \/ s.last \notin {"atom", "ring", "close"} THEN Refuse(s, "syntax")
   ELSE [s EXCEPT !.prev = IF AsBuilt THEN s.reg ELSE s.stack[Len(s.stack)], !.reg = 0,
                  !.stack = SubSeq(@, 1, Len(@) - 1), !.last = "close"]
 ReadRing(s, id) ==
-  IF s.last \notin {"atom", "ring"} THEN Refuse(s)          \* ring closures follow their atom directly; here prev = Len(atoms)
+  \* ring closures follow their atom directly (there prev = Len(atoms)); a bond symbol in front of one is SMILES but not read here
+  IF s.last \in {"bond", "close"} THEN Refuse(s, "outside") ELSE
+  IF s.last \notin {"atom", "ring"} THEN Refuse(s, "syntax")
   ELSE IF RingOpen(s, id) THEN
-     (IF RingAtom(s, id) = s.prev \/ Bonded(s, RingAtom(s, id), s.prev) THEN Refuse(s)
+     (IF RingAtom(s, id) = s.prev \/ Bonded(s, RingAtom(s, id), s.prev) THEN Refuse(s, "outside")
       ELSE [s EXCEPT !.bonds = Append(@, <<RingAtom(s, id), s.prev, "r">>),
                      !.rings = IF AsBuilt THEN @ ELSE DropRing(s, id), !.nclosed = @ + 1, !.last = "ring"])
   ELSE [s EXCEPT !.rings = Append(@, <<id, s.prev>>), !.last = "ring"]
@@ -78,7 +81,7 @@ Step(s, tok) ==
   IF tok = "." THEN ReadDot(s) ELSE
   IF tok = "(" THEN ReadOpen(s) ELSE
   IF tok = ")" THEN ReadClose(s) ELSE
-  IF IsRing(tok) THEN ReadRing(s, RingId(tok)) ELSE Refuse(s)
+  IF IsRing(tok) THEN ReadRing(s, RingId(tok)) ELSE Refuse(s, "outside")
 
 RECURSIVE RunFrom(_, _, _)
 RunFrom(s, toks, k) == IF k > Len(toks) THEN s ELSE RunFrom(Step(s, toks[k]), toks, k + 1)
@@ -87,6 +90,9 @@ Run(toks) == RunFrom(S0, toks, 1)
 OpenRings(s) == IF AsBuilt THEN {} ELSE {s.rings[k][1] : k \in DOMAIN s.rings}
 Accepting(s) == s.ok /\ s.atoms # <<>> /\ s.stack = <<>> /\ OpenRings(s) = {} /\ s.pend = "" /\ s.last \in {"atom", "ring", "close"}
 WellFormed(toks) == (\A k \in DOMAIN toks : IsToken(toks[k])) /\ Accepting(Run(toks))
+(* no SMILES grammar reads the string: a syntax error on the way, or the end reached with a branch or a ring still open, a bond
+   symbol or a dot waiting for its atom, or no atom at all.  Such a string must be refused, not read as some molecule *)
+IllFormed(toks) == LET fin == Run(toks) IN (\A k \in DOMAIN toks : IsToken(toks[k])) /\ ((~fin.ok /\ fin.why = "syntax") \/ (fin.ok /\ ~Accepting(fin)))
 
 RECURSIVE TextFrom(_, _)
 TextFrom(toks, k) == IF k > Len(toks) THEN "" ELSE toks[k] \o TextFrom(toks, k + 1)
